@@ -22,10 +22,10 @@ import (
 // documents / path strings (error or mask, never a panic).
 
 const c14IDL = `
-struct Leaf { 1: i32 A, 2: string B, 3: list<i32> L, 70: i64 Big, 300: string Far }
+struct Leaf { 1: i32 A, 2: string B, 3: list<i32> L, 63: i32 Edge, 70: i64 Big, 300: string Far }
 struct Mid {
   1: Leaf X, 2: list<Leaf> Ls, 3: map<string, Leaf> SM, 4: map<i32, Leaf> IM, 5: set<string> Ss,
-  6: map<string, string> Plain, 7: list<list<Leaf>> LL, 64: Leaf Y
+  6: map<string, string> Plain, 7: list<list<Leaf>> LL, 63: Leaf Z, 64: Leaf Y
 }
 struct Root {
   1: Mid M, 2: list<Mid> Ms, 3: map<string, Mid> SMM, 4: map<i64, Mid> IMM, 5: string S, 6: Leaf Lf,
@@ -47,11 +47,11 @@ type c14Field struct {
 
 var (
 	c14Scalar = &c14Node{kind: "scalar"}
-	c14Leaf   = &c14Node{kind: "struct", fields: []c14Field{{"A", 1, c14Scalar}, {"B", 2, c14Scalar}, {"L", 3, &c14Node{kind: "list", elem: c14Scalar}}, {"Big", 70, c14Scalar}, {"Far", 300, c14Scalar}}}
+	c14Leaf   = &c14Node{kind: "struct", fields: []c14Field{{"A", 1, c14Scalar}, {"B", 2, c14Scalar}, {"L", 3, &c14Node{kind: "list", elem: c14Scalar}}, {"Edge", 63, c14Scalar}, {"Big", 70, c14Scalar}, {"Far", 300, c14Scalar}}}
 	c14Mid    = &c14Node{kind: "struct", fields: []c14Field{
 		{"X", 1, c14Leaf}, {"Ls", 2, &c14Node{kind: "list", elem: c14Leaf}}, {"SM", 3, &c14Node{kind: "strmap", elem: c14Leaf}},
 		{"IM", 4, &c14Node{kind: "intmap", elem: c14Leaf}}, {"Ss", 5, &c14Node{kind: "list", elem: c14Scalar}},
-		{"Plain", 6, &c14Node{kind: "strmap", elem: c14Scalar}}, {"LL", 7, &c14Node{kind: "list", elem: &c14Node{kind: "list", elem: c14Leaf}}}, {"Y", 64, c14Leaf}}}
+		{"Plain", 6, &c14Node{kind: "strmap", elem: c14Scalar}}, {"LL", 7, &c14Node{kind: "list", elem: &c14Node{kind: "list", elem: c14Leaf}}}, {"Z", 63, c14Leaf}, {"Y", 64, c14Leaf}}}
 	c14Root = &c14Node{kind: "struct", fields: []c14Field{
 		{"M", 1, c14Mid}, {"Ms", 2, &c14Node{kind: "list", elem: c14Mid}}, {"SMM", 3, &c14Node{kind: "strmap", elem: c14Mid}},
 		{"IMM", 4, &c14Node{kind: "intmap", elem: c14Mid}}, {"S", 5, c14Scalar}, {"Lf", 6, c14Leaf}, {"M2", 100, c14Mid}, {"Last", 32767, c14Scalar}}}
@@ -347,6 +347,23 @@ func (c14Driver) Run(spec *simrt.Spec, agg *Agg, keep bool) *Outcome {
 					return
 				}
 				refs[i] = &ref{fm: fm, json: append([]byte(nil), j...), ans: c14Ans(fm)}
+				// (v) every path the mask was built from is a member of the mask (white list) /
+				// is excluded by it (black list): the weakest consequence of "answers as the paths prescribe"
+				star := false
+				for _, pth := range m.Paths {
+					if strings.Contains(pth, "*") {
+						star = true // '*' resets specific keys at its position: outside what the statement defines
+					}
+				}
+				for _, pth := range m.Paths {
+					if star {
+						break
+					}
+					in := fm.PathInMask(desc, pth)
+					if !m.Black && !in {
+						fail("own-path-not-in-mask", "own-path-not-in-mask", "white-list mask built from %q does not contain its own path %q", m.Paths, pth)
+					}
+				}
 				// (i) stable text: again on the same mask, and on a second mask from the same paths
 				j2, _ := fm.MarshalJSON()
 				if !bytes.Equal(j, j2) {
@@ -387,7 +404,7 @@ func (c14Driver) Run(spec *simrt.Spec, agg *Agg, keep bool) *Outcome {
 			simrt.WGAdd(&wg, 1)
 			simrt.Go("c14-caller", func() {
 				defer simrt.WGDone(&wg)
-				bufs := [2][]byte{}       // buffers this caller owns and reuses
+				bufs := [2][]byte{}      // buffers this caller owns and reuses
 				bufDoc := [2]int{-1, -1} // which mask's document each buffer holds
 				guard("caller", func() {
 					for _, op := range cl.Ops {
